@@ -57,6 +57,9 @@ type faultsIn struct {
 	OrigMode     int         `json:"orig_mode"`
 	OrigPwm      int         `json:"orig_pwm"`
 	Plan         []faultsCyc `json:"plan"`
+	// per-operation plan: Ops[k][i] = fault of the i-th hooked file operation of cycle k ("" none, error, garbage);
+	// when present, Plan only carries the temperatures
+	Ops [][]string `json:"ops,omitempty"`
 }
 type faultsObs struct {
 	Kind    int      `json:"kind"` // 0 regulating, 1 stopped after restore, 2 crash
@@ -65,6 +68,8 @@ type faultsObs struct {
 	Pwm     int      `json:"pwm"`
 	Ops     []string `json:"ops"`
 	Stalled []bool   `json:"stalled"`
+	LastW   bool     `json:"last_write_faulted"`
+	Trace   [][]int  `json:"trace,omitempty"`
 	Panic   string   `json:"panic,omitempty"`
 }
 
@@ -76,6 +81,23 @@ type faultsEnv struct {
 	phase                             string // mon | rpm | ufs | restore
 	nPwmReads                         int
 	ops                               []string
+	perOp                             bool
+	opPlan                            []string // per-operation mode: faults of the current cycle
+	opIdx                             int
+	trace                             []int
+	lastW                             bool
+}
+
+// per-operation mode: the fault of the next hooked file operation (class: 0 sensor read, 1 rpm read,
+// 2 pwm read, 3 pwm write, 4 mode write, 5 mode read)
+func (e *faultsEnv) nextOp(class int) string {
+	e.trace = append(e.trace, class)
+	k := ""
+	if e.opIdx < len(e.opPlan) {
+		k = e.opPlan[e.opIdx]
+	}
+	e.opIdx++
+	return k
 }
 
 // faultsFan records what the controller asks of the fan while it restores (Fan interface level:
@@ -88,6 +110,9 @@ type faultsFan struct {
 func (f *faultsFan) SetPwm(pwm int) error {
 	if f.env.phase == "restore" {
 		f.env.ops = append(f.env.ops, "OpWPwm "+cZ(pwm))
+		if !f.env.perOp {
+			f.env.lastW = f.env.cur.PwmWrite != "" // regime mode (also command fans, whose writes bypass the file hook)
+		}
 	}
 	return f.Fan.SetPwm(pwm)
 }
@@ -116,12 +141,23 @@ func faultsInstallHooks() {
 			return nil, nil, false
 		}
 		kind := ""
-		switch path {
-		case e.tmpPath:
+		switch {
+		case e.perOp:
+			switch path {
+			case e.tmpPath:
+				kind = e.nextOp(0)
+			case e.rpmPath:
+				kind = e.nextOp(1)
+			case e.pwmPath:
+				kind = e.nextOp(2)
+			case e.enPath:
+				kind = e.nextOp(5)
+			}
+		case path == e.tmpPath:
 			kind = e.cur.Sensor
-		case e.rpmPath:
+		case path == e.rpmPath:
 			kind = e.cur.Rpm
-		case e.pwmPath:
+		case path == e.pwmPath:
 			if e.cur.PwmRead != "" {
 				if e.phase == "ufs" {
 					if e.nPwmReads >= e.cur.PwmFrom {
@@ -151,8 +187,17 @@ func faultsInstallHooks() {
 		switch path {
 		case e.pwmPath:
 			kind = e.cur.PwmWrite
+			if e.perOp {
+				kind = e.nextOp(3)
+			}
+			if e.phase == "restore" {
+				e.lastW = kind != ""
+			}
 		case e.enPath:
 			kind = e.cur.ModeWrite
+			if e.perOp {
+				kind = e.nextOp(4)
+			}
 		}
 		switch kind {
 		case "":
@@ -405,8 +450,16 @@ func faultsRun(ctx *Ctx, seq int, in faultsIn) (faultsObs, string, []string) {
 			os.WriteFile(filepath.Join(dir, "phase"), []byte(p), 0644)
 		}
 	}
+	e.perOp = len(in.Ops) > 0
 	for k, y := range in.Plan {
 		e.cur = y
+		if e.perOp {
+			e.cur = faultsCyc{Temp: y.Temp}
+			e.opPlan, e.opIdx, e.trace = nil, 0, nil
+			if k < len(in.Ops) {
+				e.opPlan = in.Ops[k]
+			}
+		}
 		os.WriteFile(e.tmpPath, []byte(strconv.Itoa(y.Temp)), 0644)
 		if in.Sensor == "cmd" {
 			e.setCmdFault("temp", y.Sensor)
@@ -416,11 +469,17 @@ func faultsRun(ctx *Ctx, seq int, in faultsIn) (faultsObs, string, []string) {
 			e.setCmdFault("get", y.PwmRead)
 			e.setCmdFault("set", y.PwmWrite)
 		}
+		endCycle := func() {
+			if e.perOp {
+				obs.Trace = append(obs.Trace, append([]int{}, e.trace...))
+			}
+		}
 		crashed := func(p string) bool {
 			if p == "" {
 				return false
 			}
 			obs.Kind, obs.Cycle, obs.Panic = 2, k, p
+			endCycle()
 			return true
 		}
 		setPhase("mon")
@@ -447,10 +506,14 @@ func faultsRun(ctx *Ctx, seq int, in faultsIn) (faultsObs, string, []string) {
 				break
 			}
 			obs.Kind, obs.Cycle = 1, k
+			endCycle()
 			break
 		}
+		endCycle()
 	}
 	e.cur = faultsCyc{}
+	e.perOp = false
+	obs.LastW = e.lastW
 	obs.Ops = append([]string{}, e.ops...)
 	obs.Pwm = faultsReadInt(e.pwmPath, -999)
 	obs.Mode = d0Mode
@@ -474,8 +537,24 @@ func faultsRun(ctx *Ctx, seq int, in faultsIn) (faultsObs, string, []string) {
 		ops[i] = "(" + o + ")"
 	}
 	dev := func(m, p int) string { return "(mkDev " + cZ(m) + " " + cZ(p) + ")" }
+	var ocs []string
+	for i := range in.Ops {
+		fs := make([]string, len(in.Ops[i]))
+		for j, kd := range in.Ops[i] {
+			fs[j] = faultsKindCoq[kd]
+		}
+		st := false
+		if i < len(obs.Stalled) {
+			st = obs.Stalled[i]
+		}
+		ocs = append(ocs, cRec("mkOC", cList(fs), cBool(st)))
+	}
+	var trs []string
+	for _, t := range obs.Trace {
+		trs = append(trs, cZList(t))
+	}
 	coq := cRec("mkCase", combo, dev(in.OrigMode, in.OrigPwm), dev(d0Mode, d0Pwm), cList(plan),
-		cZ(obs.Kind), cZ(obs.Cycle), dev(obs.Mode, obs.Pwm), cList(ops))
+		cZ(obs.Kind), cZ(obs.Cycle), dev(obs.Mode, obs.Pwm), cList(ops), cList(ocs), cBool(obs.LastW), cList(trs))
 	tags := []string{"fan=" + in.Fan, "sensor=" + in.Sensor, "curve=" + in.Curve.T, "outcome=" + []string{"regulating", "stopped", "crash"}[obs.Kind]}
 	if in.Curve.T == "func" {
 		if faultsCurveHasPid(in.Curve) {
@@ -490,6 +569,16 @@ func faultsRun(ctx *Ctx, seq int, in faultsIn) (faultsObs, string, []string) {
 				tags = append(tags, "fault="+kv[0]+":"+kv[1])
 			}
 		}
+	}
+	for _, oc := range in.Ops {
+		for _, kd := range oc {
+			if kd != "" {
+				nf++
+			}
+		}
+	}
+	if len(in.Ops) > 0 {
+		tags = append(tags, "per-operation")
 	}
 	tags = append(tags, fmt.Sprintf("faults=%d", nf))
 	for _, s := range obs.Stalled {
@@ -700,6 +789,66 @@ func init() {
 					jobs = append(jobs, job{in, []string{"stall"}})
 				}
 			}
+			// (f) per-operation plans (file-backed fans and sensors: every hooked file operation is a step):
+			//     a fault on exactly the i-th operation of cycle k, for every i up to the longest cycle, both kinds;
+			//     pairs in one cycle (e.g. the curve's sensor read and a write of the restore); "device gone from
+			//     operation i on" (everything after i fails)
+			nOps := ctx.Param("perop", 500)
+			if !ctx.Quick() {
+				nOps = ctx.Param("perop", 6000)
+			}
+			var fcombos []comboT
+			for _, cb := range combos {
+				if cb.fan != "cmd" && cb.sensor != "cmd" {
+					fcombos = append(fcombos, cb)
+				}
+			}
+			mkOps := func(cb comboT, ops [][]string) faultsIn {
+				plan := mkPlan(nil, nil)
+				in := mkIn(cb, plan[:len(ops)])
+				in.Ops = ops
+				return in
+			}
+			cnt := 0
+			for i := 0; i < 26 && cnt < nOps; i++ {
+				for _, kd := range []string{"error", "garbage"} {
+					for _, cyc := range []int{0, 1, 2} {
+						cb := fcombos[rng.Intn(len(fcombos))]
+						ops := make([][]string, 4)
+						row := make([]string, i+1)
+						row[i] = kd
+						ops[cyc] = row
+						in := mkOps(cb, ops)
+						in.HasRpm = rng.Chance(3, 4)
+						jobs = append(jobs, job{in, []string{"perop-single"}})
+						cnt++
+					}
+				}
+			}
+			for cnt < nOps {
+				cb := fcombos[rng.Intn(len(fcombos))]
+				ops := make([][]string, 4)
+				cyc := rng.Intn(3)
+				row := make([]string, 30)
+				switch rng.Intn(3) {
+				case 0: // two faults
+					row[rng.Intn(16)] = []string{"error", "garbage"}[rng.Intn(2)]
+					row[rng.Intn(22)] = []string{"error", "garbage"}[rng.Intn(2)]
+				case 1: // the device is gone from operation i on
+					for j := rng.Intn(18); j < len(row); j++ {
+						row[j] = "error"
+					}
+				default: // a few random faults
+					for j := 0; j < rng.Range(1, 5); j++ {
+						row[rng.Intn(24)] = []string{"error", "garbage"}[rng.Intn(2)]
+					}
+				}
+				ops[cyc] = row
+				in := mkOps(cb, ops)
+				in.HasRpm = rng.Chance(3, 4)
+				jobs = append(jobs, job{in, []string{"perop-multi"}})
+				cnt++
+			}
 			// (e) timeouts (2 s per command): few, on command components only
 			var tcombos []comboT
 			for _, cb := range combos {
@@ -750,7 +899,7 @@ func init() {
 		close(ch)
 		wg.Wait()
 		for i, r := range results {
-			nf := false
+			nf := len(jobs[i].in.Ops) > 0
 			for _, y := range jobs[i].in.Plan {
 				if y.Sensor != "" || y.Rpm != "" || y.PwmRead != "" || y.PwmWrite != "" || y.ModeWrite != "" {
 					nf = true
